@@ -96,6 +96,7 @@ class SymmetryAnalyzer(object):
         self._conventional_wyckoff_letters = None
         self._conventional_equivalent_atoms = None
         self._conventional_lattice_fit = None
+        self._conventional_basis_swap = None
 
         self._spglib_conventional_system = None
         self._spglib_wyckoff_letters_conventional = None
@@ -433,6 +434,7 @@ class SymmetryAnalyzer(object):
                     break
             if non_periodic_dim != swap_dim:
                 matid.geometry.swap_basis(ideal_sys, non_periodic_dim, swap_dim)
+                self._conventional_basis_swap = (non_periodic_dim, swap_dim)
 
             # Minimize the cell to only just fit the atoms in the non-periodic
             # direction
@@ -540,6 +542,13 @@ class SymmetryAnalyzer(object):
         """
         space_group = self.get_space_group_number()
         conv_sys = self.get_conventional_system()
+        # The tabulated Wyckoff expressions refer to the standard setting. For
+        # 2D systems the basis vectors of the conventional system may have
+        # been swapped to get the non-periodic basis last: the swap is undone
+        # on a copy before the positions are compared with the expressions.
+        if self._conventional_basis_swap is not None:
+            conv_sys = conv_sys.copy()
+            matid.geometry.swap_basis(conv_sys, *self._conventional_basis_swap)
         wyckoff_letters = self.get_wyckoff_letters_conventional()
         equivalent_atoms = self.get_equivalent_atoms_conventional()
         sets = self._get_wyckoff_sets(
